@@ -601,6 +601,12 @@ func (fr *Frame) havocHeapExcept(st *State, escaped map[string]bool) {
 			if r.eng.immutableKey(k) {
 				continue
 			}
+			if strings.HasPrefix(k, "G|") && strings.Contains(k, ".") {
+				pk := k[2:strings.Index(k, ".")]
+				if pk != "grpcmux" && pk != "cmdrunner" && pk != "runner" && pk != "plugin" {
+					continue // package-level variables of other packages (os.Stdout, io.EOF, ...) are written only explicitly
+				}
+			}
 			r.havocKey(st, k)
 			if ks := keep[k]; len(ks) > 0 {
 				t := st.mem[k]
@@ -833,6 +839,11 @@ func (fr *Frame) spawn(st *State, in *ssa.Go) {
 	for i, a := range args {
 		extra[fmt.Sprintf("arg%d", i)] = a
 	}
+	if c.IsInvoke() {
+		rv := fr.val(st, c.Value)
+		rv.T = c.Value.Type()
+		extra["recv"] = rv
+	}
 	var callee *ssa.Function
 	var binds []Val
 	switch v := c.Value.(type) {
@@ -1054,6 +1065,11 @@ func (fr *Frame) checkFrame(st *State, ret *ssa.Return) {
 	r := fr.r
 	if fr.contract == nil || !fr.contract.HasModifies {
 		return
+	}
+	for _, m := range fr.contract.Modifies {
+		if m.Expr.Op == "id" && m.Expr.Name == "everything" {
+			return // the function declares no frame at all
+		}
 	}
 	decls, skipHeap := fr.frameDecls(fr.entry)
 	// designators are also read in the final state: a guarded variable may have been replaced by
